@@ -127,7 +127,7 @@ def make_wrapper(qual):
             env.update(args)
             env['old'] = old
             env['result'] = res
-            for cn, text in c.ensures.items():
+            for cn, text in list(c.ensures.items()) + list(c.runtime_ensures.items()):
                 try:
                     ok = ceval(text, env)
                 except Exception as e:
